@@ -1289,4 +1289,6 @@ def run(ctx):
     cpp, tr, roles = rule_cpp(ctx)
     rules = [rule_call(ctx, tr, roles), cpp, rule_cond(ctx), rule_def(ctx), rule_chelp(ctx),
              rule_I5(ctx, modules=('Code', 'ExprNodes', 'PyrexTypes', 'Nodes', 'ModuleNode'), names=lambda n: n in HELPERS, floor=5, rid='C32-I5')]
+    from ..rules import functype_copy
+    rules.append(functype_copy.rule_copy(ctx))
     return rules
